@@ -43,9 +43,12 @@ func TestVerifGroupReport(t *testing.T) {
 		nreq := 4 + rng.Intn(8)
 		for k := 0; k < nreq; k++ {
 			op := []string{"add", "add", "add", "del", "del", "stop"}[rng.Intn(6)]
+			if k > 1 && rng.Intn(6) == 0 {
+				op = "restart" // the source is stopped and started again through the RPC methods: a new run begins with no connection
+			}
 			conns := map[int][]int{}
 			pairs := [][]int{}
-			for j := 1 + rng.Intn(3); j > 0 && op != "stop"; j-- {
+			for j := 1 + rng.Intn(3); j > 0 && op != "stop" && op != "restart"; j-- {
 				s, r := rng.Intn(nchan+2)-1, rng.Intn(nchan+2)-1 // -1 .. nchan: out of range at both ends
 				if rng.Intn(3) > 0 {                             // mostly in range, so that requests MIX valid and invalid pairs
 					s, r = rng.Intn(nchan), rng.Intn(nchan)
@@ -60,6 +63,11 @@ func TestVerifGroupReport(t *testing.T) {
 				err = rig.ctl.AddGroupTriggerCoupling(GroupTriggerState{Connections: conns}, &ok)
 			case "del":
 				err = rig.ctl.DeleteGroupTriggerCoupling(&GroupTriggerState{Connections: conns}, &ok)
+			case "restart":
+				d := "x"
+				rig.ctl.Stop(&d, &ok)
+				name := "TRIANGLESOURCE"
+				err = rig.ctl.Start(&name, &ok)
 			default:
 				b := false
 				err = rig.ctl.StopTriggerCoupling(&b, &ok)
